@@ -5,8 +5,10 @@
      {"ev":"Started"|"Passed"|"Stopped","i","ok","err"}    that call returned (logged by the calling goroutine)
      {"ev":"Crash","i"}                                    the driver cancels i's context and closes its host
      {"ev":"FOpen","s","to","ok"}                          the faulty member opened stream s to honest `to`
-     {"ev":"FMsg","s","to","auth","step","shutdown","resp"}   it wrote one MsgSync and read the answer
-                                                           (resp = "ok" | "sig" | "ver" | "step" | "closed")
+     {"ev":"FMsg","s","to","auth","step","shutdown"}       it is about to write one MsgSync (logged BEFORE the write: the
+                                                           server acts on it before it answers, and an honest member may
+                                                           see and log that before the faulty member has read the answer)
+     {"ev":"FResp","s","to","resp"}                        the answer: resp = "ok" | "sig" | "ver" | "step" | "closed"
      {"ev":"FClose","s"}   {"ev":"Cancel"} (end of the schedule: every context is cancelled)   {"ev":"Skip",..}
 
    The periodic messages of the honest clients, Connected, and the shutdown handshake are NOT logged: what the
@@ -21,12 +23,13 @@ EXTENDS DKGSync, TraceCommon
 VARIABLES wasc,       \* [member -> inside startSyncProtocol: no error, every peer connected, seen at some point]
           fok,        \* [member -> waiting: no error and the faulty peer's report within the barrier, seen at some point]
           cans,       \* [member -> it was able to send its shutdown flags at some point (passed / could pass its final barrier)]
+          expect,     \* [stream -> the answer the design spec gives to the message in flight on it]
           cancelled
-tvars == <<vars, tr, l, wasc, fok, cans, cancelled>>
+tvars == <<vars, tr, l, wasc, fok, cans, expect, cancelled>>
 R == Traces[tr][1]
 TraceInit == /\ TrInit /\ InitWith([n |-> R.n, f |-> R.f, frej |-> R.frej])
              /\ wasc = [i \in 1..4 |-> FALSE] /\ fok = [i \in 1..4 |-> FALSE] /\ cans = [i \in 1..4 |-> FALSE]
-             /\ cancelled = FALSE
+             /\ expect = [s \in 1..16 |-> "-"] /\ cancelled = FALSE
 
 Max(a, b) == IF a > b THEN a ELSE b
 \* ---- predicates over an explicit state record, so that they can be evaluated on the successor state as well ----
@@ -53,32 +56,39 @@ Track == /\ wasc' = [i \in 1..4 |-> i \in Honest /\ StP.phase[i] = "conn" /\ (wa
                                       \/ StP.phase[i] # "crashed" /\ FokNow(StP, i) /\ (StP.phase[i] = "conn" => wasc'[i])]
          /\ cans' = [i \in 1..4 |-> i \in Honest /\ (cans[i] \/ CanShut(i))]
 
+\* CheckInv for use INSIDE an action: there TLC explores both sides of a disjunction (it would run InvFail, which records the
+\* name, even when the predicate holds), whereas IF only evaluates the chosen branch
+Chk(name, pred) == IF pred THEN TRUE ELSE InvFail(name)
+
 \* ---- the driver's calls and the faulty member ----
-TReset == IsEvent("Reset") /\ l = 1 /\ UNCHANGED <<vars, cancelled>> /\ Track
+TReset == IsEvent("Reset") /\ l = 1 /\ UNCHANGED <<vars, expect, cancelled>> /\ Track
 TCall == /\ \/ IsEvent("Start") /\ Start(Ev.i)
             \/ IsEvent("Next") /\ Next(Ev.i)
             \/ IsEvent("Stop") /\ Stop(Ev.i)
-         /\ UNCHANGED cancelled /\ Track
+         /\ UNCHANGED <<expect, cancelled>> /\ Track
 TCrash == /\ IsEvent("Crash") /\ Ev.i \in Honest
           /\ IF phase[Ev.i] \in DeadPh \cup {"idle"} THEN UNCHANGED vars ELSE Crash(Ev.i)
-          /\ UNCHANGED cancelled /\ Track
-TSkip == IsEvent("Skip") /\ UNCHANGED <<vars, cancelled>> /\ Track
-TCancel == IsEvent("Cancel") /\ cancelled' = TRUE /\ UNCHANGED vars /\ Track
+          /\ UNCHANGED <<expect, cancelled>> /\ Track
+TSkip == IsEvent("Skip") /\ UNCHANGED <<vars, expect, cancelled>> /\ Track
+TCancel == IsEvent("Cancel") /\ cancelled' = TRUE /\ UNCHANGED <<vars, expect>> /\ Track
 TFOpen == /\ IsEvent("FOpen") /\ Ev.to \in Honest
           /\ IF Ev.ok THEN FOpen(Ev.s, Ev.to) ELSE ~ServerUp(Ev.to) /\ UNCHANGED vars
-          /\ UNCHANGED cancelled /\ Track
+          /\ UNCHANGED <<expect, cancelled>> /\ Track
 TFMsg == /\ IsEvent("FMsg")
          /\ LET m == Msg(Ev.auth, Ev.step, Ev.shutdown) IN
-            IF Ev.resp = "closed"
-              THEN /\ (\A x \in fst : x.s # Ev.s) \/ ~ServerUp(Ev.to) \/ serr[Ev.to] # "none"   \* the server had ended that stream / is aborting
-                   /\ UNCHANGED vars
-              ELSE /\ [s |-> Ev.s, to |-> Ev.to] \in fst
-                   /\ CheckInv("ServerAnswer", Ev.resp = Outcome(Ev.to, cfg.f, m))
+            IF [s |-> Ev.s, to |-> Ev.to] \in fst /\ ServerUp(Ev.to)
+              THEN /\ expect' = [expect EXCEPT ![Ev.s] = Outcome(Ev.to, cfg.f, m)]
                    /\ FMsg(Ev.s, m)
+              ELSE expect' = [expect EXCEPT ![Ev.s] = "closed"] /\ UNCHANGED vars     \* the server had ended that stream
          /\ UNCHANGED cancelled /\ Track
+\* the member's Run is ending (its context is cancelled before the return is logged): the stream may already be dead
+Aborting(i) == serr[i] # "none" \/ ~ServerUp(i) \/ cancelled
+TFResp == /\ IsEvent("FResp")
+          /\ Chk("ServerAnswer", Ev.resp = expect[Ev.s] \/ (Ev.resp = "closed" /\ Aborting(Ev.to)))
+          /\ UNCHANGED <<vars, expect, cancelled>> /\ Track
 TFClose == /\ IsEvent("FClose")
            /\ IF \E x \in fst : x.s = Ev.s THEN FClose(Ev.s) ELSE UNCHANGED vars
-           /\ UNCHANGED cancelled /\ Track
+           /\ UNCHANGED <<expect, cancelled>> /\ Track
 
 \* ---- returns ----
 What(ph) == CASE ph = "conn" -> "Started" [] ph = "wait" -> "Passed" [] ph \in {"stopwait", "closing"} -> "Stopped" [] OTHER -> "-"
@@ -90,39 +100,39 @@ ErrClasses(i) == (IF serr[i] # "none" THEN {serr[i], "ctx"} ELSE {})
 \* ... of a member the driver has crashed, or after the final Cancel: any error
 TRetDead == /\ \/ IsEvent("Started") \/ IsEvent("Passed") \/ IsEvent("Stopped")
             /\ Ev.i \in Honest /\ phase[Ev.i] = "crashed"
-            /\ Ev.ok => CheckInv("ReturnAfterCrash", fok[Ev.i])
-            /\ UNCHANGED <<vars, cancelled>> /\ Track
+            /\ Ev.ok => Chk("ReturnAfterCrash", fok[Ev.i])
+            /\ UNCHANGED <<vars, expect, cancelled>> /\ Track
 TRetErr == /\ \/ IsEvent("Started") \/ IsEvent("Passed") \/ IsEvent("Stopped")
            /\ Ev.i \in Honest /\ Ev.ev = What(phase[Ev.i]) /\ ~Ev.ok
-           /\ CheckInv("FailHasCause", cancelled \/ Ev.err \in ErrClasses(Ev.i))
+           /\ Chk("FailHasCause", cancelled \/ Ev.err \in ErrClasses(Ev.i))
            /\ Die(Ev.i, "failed", {Ev.err})
-           /\ UNCHANGED <<cfg, step, passed, rep, shut, serr, valid, sent, cancelled>> /\ Track
+           /\ UNCHANGED <<cfg, step, passed, rep, shut, serr, valid, sent, expect, cancelled>> /\ Track
 \* startSyncProtocol returned nil: connected to everybody, then barrier 1
 TStarted == /\ IsEvent("Started") /\ Ev.ok /\ Ev.i \in Honest /\ phase[Ev.i] = "conn"
             /\ LET i == Ev.i IN
-               /\ CheckInv("AuthOnly", wasc[i])
-               /\ CheckInv("BarrierFaultyPeer", fok[i])
-               /\ CheckInv("BarrierSafe", HonOK(i, 1))
+               /\ Chk("AuthOnly", wasc[i])
+               /\ Chk("BarrierFaultyPeer", fok[i])
+               /\ Chk("BarrierSafe", HonOK(i, 1))
                /\ phase' = [phase EXCEPT ![i] = "run"] /\ step' = [step EXCEPT ![i] = 1]
                /\ passed' = [passed EXCEPT ![i] = 1]
                /\ rep' = Fixed(i, 1)
                /\ conn' = [conn EXCEPT ![i] = @ \cup {j \in Honest \ {i} : ~Dead(j)}]
                /\ valid' = [valid EXCEPT ![i] = @ \cup (Honest \ {i})]
-            /\ UNCHANGED <<cfg, cause, shut, serr, sent, fst, cancelled>> /\ Track
+            /\ UNCHANGED <<cfg, cause, shut, serr, sent, fst, expect, cancelled>> /\ Track
 TPassed == /\ IsEvent("Passed") /\ Ev.ok /\ Ev.i \in Honest /\ phase[Ev.i] = "wait"
            /\ LET i == Ev.i IN
-              /\ CheckInv("BarrierFaultyPeer", fok[i])
-              /\ CheckInv("BarrierSafe", HonOK(i, step[i]))
+              /\ Chk("BarrierFaultyPeer", fok[i])
+              /\ Chk("BarrierSafe", HonOK(i, step[i]))
               /\ phase' = [phase EXCEPT ![i] = "run"] /\ passed' = [passed EXCEPT ![i] = step[i]]
               /\ rep' = Fixed(i, step[i])
-           /\ UNCHANGED <<cfg, step, cause, conn, shut, serr, valid, sent, fst, cancelled>> /\ Track
+           /\ UNCHANGED <<cfg, step, cause, conn, shut, serr, valid, sent, fst, expect, cancelled>> /\ Track
 \* shutdownFunc returned nil: final barrier, a shutdown message to every peer, a shutdown flag from every peer
 TStopped == /\ IsEvent("Stopped") /\ Ev.ok /\ Ev.i \in Honest /\ phase[Ev.i] \in {"stopwait", "closing"}
             /\ LET i == Ev.i
                    adv == {j \in Honest \ {i} : phase[j] = "stopwait"}      \* they passed their final barrier unseen
                IN
-               /\ phase[i] = "stopwait" => CheckInv("BarrierFaultyPeer", fok[i]) /\ CheckInv("BarrierSafe", HonOK(i, step[i]))
-               /\ CheckInv("CleanShutdown", (\A j \in Honest \ {i} : cans[j] \/ CanShut(j)) /\ Faulty \subseteq shut[i])
+               /\ phase[i] = "stopwait" => Chk("BarrierFaultyPeer", fok[i]) /\ Chk("BarrierSafe", HonOK(i, step[i]))
+               /\ Chk("CleanShutdown", (\A j \in Honest \ {i} : cans[j] \/ CanShut(j)) /\ Faulty \subseteq shut[i])
                /\ phase' = [j \in Honest |-> IF j = i THEN "down" ELSE IF j \in adv THEN "closing" ELSE phase[j]]
                /\ passed' = [j \in Honest |-> IF j = i \/ j \in adv THEN step[j] ELSE passed[j]]
                /\ rep' = IF phase[i] = "stopwait" THEN Fixed(i, step[i]) ELSE rep
@@ -130,8 +140,8 @@ TStopped == /\ IsEvent("Stopped") /\ Ev.ok /\ Ev.i \in Honest /\ phase[Ev.i] \in
                /\ sent' = [sent EXCEPT ![i] = Peers(i)]
                /\ conn' = [j \in Honest |-> conn[j] \ {i}]
                /\ fst' = {x \in fst : x.to # i}
-            /\ UNCHANGED <<cfg, step, cause, serr, valid, cancelled>> /\ Track
-TraceNext == TReset \/ TCall \/ TCrash \/ TSkip \/ TCancel \/ TFOpen \/ TFMsg \/ TFClose
+            /\ UNCHANGED <<cfg, step, cause, serr, valid, expect, cancelled>> /\ Track
+TraceNext == TReset \/ TCall \/ TCrash \/ TSkip \/ TCancel \/ TFOpen \/ TFMsg \/ TFResp \/ TFClose
              \/ TRetDead \/ TRetErr \/ TStarted \/ TPassed \/ TStopped
 TraceSpec == TraceInit /\ [][TraceNext]_tvars
 
